@@ -670,7 +670,8 @@ def check_update_xor_insert(ctx, db):
     ctx.touch(f)
     g = f.cfg
     norm = lambda t: re.sub(r'<[A-Za-z]+:(?!:)[^>]*>', '', t).replace('gdstk::', '')
-    loop = next((l for l in f.body.c if l is not None and l.k == 'ForStmt'), None)
+    # the search loop: the outermost loop that holds the in-place update, in whatever loop form and block nesting
+    loop = next((l for l in f.walk() if l.k in ('ForStmt', 'WhileStmt', 'DoStmt') and any(c.k == 'CallExpr' and c.callee in ('memcpy', 'gdstk::reallocate') for c in l.walk())), None)
     link = next((x for x in f.walk() if is_assign(x) and norm(x.child('lhs').text()) == 'properties'), None)
     upd = [c for c in (loop.walk() if loop is not None else []) if c.k == 'CallExpr' and c.callee in ('memcpy', 'gdstk::reallocate')]
     if loop is None or link is None or not upd:
